@@ -49,3 +49,62 @@ Example C07_nonvacuous :
   de_value true [57;1;255;44;1;0] = Ok (VSet (KInt U16) [KeyZ 300], []) /\
   skip_value [57;1;255;44;1;0] = Ok [].
 Proof. exact former_witness_ok. Qed.
+
+(* ---------- additions: the converse of C07_validating_subset, error kinds, skip bounds ---------- *)
+From Aldrin Require Import Codec.Utf8Converse.
+
+(* The value-level converse is FALSE: the non-validating decoder accepts, the decoded value is
+   well-formed WITH UTF-8 validation (every string in it is valid), and yet the validating decoder
+   rejects — a map entry whose value is an invalid string is overwritten by a later entry with the
+   same key (HashMap last-wins insertion), so the invalid string is in the bytes but not in the value. *)
+Theorem C07_utf8_converse_naive_refuted :
+  exists b v r, de_value false b = Ok (v, r) /\ wf true v = true /\ de_value true b <> Ok (v, r).
+Proof. exact utf8_converse_naive_refuted. Qed.
+Print Assumptions C07_utf8_converse_naive_refuted.
+
+(* The converse over the BYTES.  [encoded_strings b] = every String payload and every string
+   map/set key the encoding of the first value in b contains, in wire order, overwritten duplicates
+   included (Codec/Utf8Converse.v: the decoder's walk with the value forgotten);
+   [all_strings_valid b] = each of them is valid UTF-8.  The validating decoder accepts exactly when
+   the non-validating one does and all encoded strings are valid, with the same value and rest ... *)
+Theorem C07_validating_iff : forall b v r,
+  de_value true b = Ok (v, r) <-> de_value false b = Ok (v, r) /\ all_strings_valid b = true.
+Proof. exact validating_iff. Qed.
+Print Assumptions C07_validating_iff.
+
+(* ... and when some encoded string is invalid it fails with InvalidSerialization, nothing else *)
+Theorem C07_validating_error : forall b v r,
+  de_value false b = Ok (v, r) -> all_strings_valid b = false -> de_value true b = Err Invalid.
+Proof. exact validating_error. Qed.
+Print Assumptions C07_validating_error.
+
+(* the decoder proper fails with UnexpectedEoi, InvalidSerialization or TooDeeplyNested only *)
+Theorem C07_error_kinds : forall utf8 b e,
+  de_value utf8 b = Err e -> e = Eoi \/ e = Invalid \/ e = TooDeep.
+Proof. exact de_err_kinds. Qed.
+Print Assumptions C07_error_kinds.
+
+(* the counterpart of C07_no_amplification for the walkers that build no value: what skip leaves
+   over is a proper suffix of the input, and split_off returns a non-empty prefix of the input and
+   that suffix — never more bytes than it was given *)
+Theorem C07_skip_bounded : forall b r, skip_value b = Ok r -> exists p, b = p ++ r /\ p <> [].
+Proof. exact skip_bounded. Qed.
+Print Assumptions C07_skip_bounded.
+
+Theorem C07_split_bounded : forall b p r, split_off b = Ok (p, r) ->
+  b = p ++ r /\ p <> [] /\ skip_value b = Ok r /\ lenN p <= lenN b.
+Proof. exact split_bounded. Qed.
+Print Assumptions C07_split_bounded.
+
+Theorem C07_value_len_bounded : forall b n, value_len b = Ok n -> 1 <= n <= lenN b.
+Proof. exact value_len_bounded. Qed.
+Print Assumptions C07_value_len_bounded.
+
+(* the refuting witness, computed: a U8-keyed map with key 1 twice, values "\xff" then "a" *)
+Example C07_naive_witness :
+  de_value false [19; 2; 1; 13; 1; 255; 1; 13; 1; 97] = Ok (VMap (KInt U8) [(KeyZ 1, VString [97])], []) /\
+  wf true (VMap (KInt U8) [(KeyZ 1, VString [97])]) = true /\
+  de_value true [19; 2; 1; 13; 1; 255; 1; 13; 1; 97] = Err Invalid /\
+  encoded_strings [19; 2; 1; 13; 1; 255; 1; 13; 1; 97] = [[255]; [97]] /\
+  all_strings_valid [19; 2; 1; 13; 1; 255; 1; 13; 1; 97] = false.
+Proof. exact naive_witness_facts. Qed.
